@@ -108,15 +108,15 @@ var properties = map[string]propSpec{
 	},
 	"C08": {
 		Bounds: [2]map[string]any{
-			{"shapes": "5 ragged array-of-array shapes (inner lengths 0..2) and one depth-3 document", "queries": "filter, computed projection, mix=> flattening"},
+			{"shapes": "5 ragged array-of-array shapes (inner lengths 0..2) and one depth-3 document", "queries": "filter, computed projection, mix=> flattening; nested evaluation against per-inner-array evaluation under WithVars (GETVAR, SETVAR), WithConstants and the Postgres dialect option"},
 			{"shapes": "same", "queries": "same"},
 		},
 		Outside: []string{"depth > 3", "GROUP BY / ORDER BY over nested sources"},
 	},
 	"C09": {
 		Bounds: [2]map[string]any{
-			{"indexes": "any int in [0,2^31) (as ReadIndex yields), range bounds any int in [-1,2^31)", "arrays": "length 0..3, ragged arrays of arrays (outer 0..2 × inner 0..2)", "selectors": "27 selector texts covering every documented form on a document with symbolic leaves and a symbolic-length array; 9 selector texts evaluated twice on independent documents and over ragged arrays (selector cache reuse)"},
-			{"indexes": "same", "arrays": "same", "selectors": "same"},
+			{"indexes": "any int in [0,2^31) (as ReadIndex yields), range bounds any int in [-1,2^31)", "arrays": "length 0..3, ragged arrays of arrays (outer 0..2 × inner 0..2)", "selectors": "27 selector texts covering every documented form on a document with symbolic leaves and a symbolic-length array; 9 selector texts evaluated twice on independent documents and over ragged arrays (selector cache reuse)", "pipes": "{k|number} over every string ≤3 bytes of {0 1 8 9 . x -} against a decimal-syntax reference, {k|string} over the halves -3..4.5"},
+			{"indexes": "same", "arrays": "same", "selectors": "same", "pipes": "strings ≤4 bytes"},
 		},
 		Outside: []string{"arbitrary byte strings as selectors: tokenisation is three Go regexps, executed natively on concrete text only"},
 	},
@@ -156,8 +156,8 @@ var properties = map[string]propSpec{
 	},
 	"C15": {
 		Bounds: [2]map[string]any{
-			{"numbers": "all 144 pairs of the 12 Go numeric types, any value with |integers| ≤ 2^53 (narrow types: every bit pattern), float32 multiples of 1/4 up to 2^22, any finite float64", "strings": "any byte strings ≤2 bytes", "number×string": "integers and halves in -3..12.5 against any string ≤2 bytes over [0-9.-a]"},
-			{"numbers": "same", "strings": "≤3 bytes", "number×string": "same"},
+			{"numbers": "all 144 pairs of the 12 Go numeric types, any value with |integers| ≤ 2^53 (narrow types: every bit pattern), float32 multiples of 1/4 up to 2^22, any finite float64", "strings": "any byte strings ≤2 bytes", "number×string": "integers and halves in -3..12.5 against any string ≤2 bytes over [0-9.-a]; float32/float64 quarters and tenths (non-dyadic float32 included), int32, int64, uint16 in -12..11 against any string ≤2 bytes over {0 1 2 9 . -}, against the number's own text and that text extended by one digit"},
+			{"numbers": "same", "strings": "≤3 bytes", "number×string": "same over [0-9.-]"},
 		},
 		Outside: []string{"integers beyond 2^53 (not exactly representable)", "NaN"},
 	},
@@ -177,7 +177,7 @@ var properties = map[string]propSpec{
 	},
 	"C18": {
 		Bounds: [2]map[string]any{
-			{"arrays": "length 0..3 with optional NULLs", "index": "any float64 in (-2^31, 2^31), fractional and negative included", "functions": "FIRST LAST ELEMENTAT UNWIND ARRAY IF CONCAT CHANGETYPE DATERANGE CONSTANT DEFAULTKEY FUSE TO_LOWER TO_UPPER (ASCII, ≤2 bytes) and 9 wrong-arity calls"},
+			{"arrays": "length 0..3 with optional NULLs", "index": "any float64 in (-2^31, 2^31), fractional and negative included", "functions": "FIRST LAST ELEMENTAT UNWIND ARRAY IF (NULL branches included) CONCAT CHANGETYPE DATERANGE CONSTANT DEFAULTKEY FUSE TO_LOWER TO_UPPER (ASCII, ≤2 bytes) and 9 wrong-arity calls"},
 			{"arrays": "same", "index": "same", "functions": "same"},
 		},
 		Outside: []string{"ENCODE/DECODE (gob reflection) and HASH (md5/sha1/sha512 compression functions) have no model: not applicable to this technique", "TO_LOWER/TO_UPPER beyond ASCII", "CHANGETYPE string↔double round trip is the NumText axiom itself"},
@@ -190,7 +190,7 @@ var properties = map[string]propSpec{
 	},
 	"C20": {
 		Bounds: [2]map[string]any{
-			{"histories": "every select list of 4 SETVAR/GETVAR operations over 2 keys (256 sequences) × 0..2 rows, followed by a second query sharing the map; every sequence of 3 stores of values of different kinds that print alike (1/'1', true/'true', NULL/'<nil>', symbolic number and string)"},
+			{"histories": "every select list of 4 SETVAR/GETVAR operations over 2 keys (256 sequences) × 0..2 rows, followed by a second query sharing the map; every sequence of 3 stores of values of different kinds that print alike (1/'1', true/'true', NULL/'<nil>', symbolic number and string); every sequence of 3 stores and a read over the 7 key expressions 1, 1.5, '1', 2.5, 1000000, 'k', 0.25 with the final contents of the caller's map"},
 			{"histories": "same"},
 		},
 	},
